@@ -13,11 +13,11 @@ META = dict(
                "interpolate.dataset.interpolate_dataset_along_axis", "interpolate_dataset_grid",
                "WaveSpectrum.interpolate", "WaveSpectrum.interpolate_frequency", "FrequencySpectrum.interpolate",
                "FrequencySpectrum.interpolate_frequency"],
-    bounds=dict(quick="fully symbolic strictly monotone grids of 2..4 nodes (ascending and descending), 1-2 symbolic "
-                      "targets, data rank 1..3 with the axis in every position, all NaN placements on 3 nodes, "
+    bounds=dict(quick="fully symbolic strictly monotone grids of 2..4 nodes and of 12 and 40 nodes for the weights (ascending and descending), 1-2 symbolic "
+                      "targets, data rank 1..3 with the axis in every position (rank 4: one position; all three in thorough), all NaN placements on 3 nodes, "
                       "two-coordinate grid interpolation 2x2..3x2, spectra nf=3 / nt=2..3",
-                thorough="grids up to 5 nodes, 2 targets, rank 3, spectra nf=4 / nt=3"),
-    outside=["float64 rounding", "grids of more than 5 nodes (same searchsorted-based code path)",
+                thorough="grids up to 40 nodes (weights) / 6 nodes (datasets), 2 targets, rank 4, NaN placements on 4 nodes, spectra nf=4 / nt=3"),
+    outside=["float64 rounding", "dataset interpolation on grids of more than 6 nodes (same searchsorted-based code path; the weights are decided up to 40 nodes)",
              "spline interpolation (scipy)", "regular_xp fast path of enclosing_points_1d (not used by the interpolator)"],
     trusted_base=["symx engine", "numpy searchsorted/clip/fancy indexing on object arrays are numpy's own code",
                   "rint modelled as round-half-even integer"],
@@ -97,6 +97,8 @@ def case_weights(ctx, n, desc, nearest=False, ntargets=1):
 LAYOUTS = {
     "x": ("x",), "tx": ("t", "x"), "xt": ("x", "t"), "axb": ("a", "x", "b"), "xab": ("x", "a", "b"), "abx": ("a", "b", "x"),
 }
+LAYOUTS4 = {"taxb": ("t", "a", "x", "b"), "xtab": ("x", "t", "a", "b"), "tabx": ("t", "a", "b", "x")}
+LAYOUTS.update(LAYOUTS4)
 
 
 def _dataset(ctx, xp, layout, nanmask=None, extra_sizes=None):
@@ -309,7 +311,13 @@ def cases(tier):
             add("case_weights", f"w_n{n}_{'desc' if desc else 'asc'}_nearest", n=n, desc=desc, nearest=True,
                 opts=dict(weight=n * n))
     add("case_weights", "w_n3_asc_2targets", n=3, desc=False, ntargets=2, opts=dict(weight=30))
+    if q:   # the whole range of grid sizes of the quantifier (2..40 nodes); thorough adds 6, 8, 20
+        add("case_weights", "w_n12_asc", n=12, desc=False, opts=dict(weight=100))
+        add("case_weights", "w_n40_desc_nearest", n=40, desc=True, nearest=True, opts=dict(weight=300))
+        add("case_weights", "w_n40_asc", n=40, desc=False, opts=dict(weight=300))
     for layout in LAYOUTS:
+        if layout in LAYOUTS4 and q and layout != "taxb":
+            continue
         add("case_along_axis", f"axis_{layout}_n3_asc", n=3, desc=False, layout=layout, opts=dict(weight=20))
     add("case_along_axis", "axis_tx_n3_desc", n=3, desc=True, layout="tx", opts=dict(weight=20))
     add("case_along_axis", "axis_x_n4_asc_2targets", n=4, desc=False, layout="x", ntargets=2, opts=dict(weight=60))
@@ -332,6 +340,15 @@ def cases(tier):
     add("case_spectrum_frequency", "spec_freq_linear", nf=3, method="linear")
     add("case_spectrum_frequency", "spec_freq_nearest", nf=3, method="nearest")
     if not q:
+        for n in (6, 8, 12, 20, 40):
+            add("case_weights", f"w_n{n}_asc", n=n, desc=False, opts=dict(weight=n * n, case_timeout_s=1700))
+            add("case_weights", f"w_n{n}_desc_nearest", n=n, desc=True, nearest=True, opts=dict(weight=n * n, case_timeout_s=1700))
+            add("case_weights", f"w_n{n}_desc", n=n, desc=True, opts=dict(weight=n * n, case_timeout_s=1700))
+        add("case_along_axis", "axis_x_n6_asc", n=6, desc=False, layout="x", opts=dict(weight=100, case_timeout_s=1700))
+        add("case_along_axis", "axis_tx_n5_desc_2targets", n=5, desc=True, layout="tx", ntargets=2,
+            opts=dict(weight=200, case_timeout_s=1700))
+        for mask in ([1, 0, 0, 1], [0, 1, 1, 0], [0, 1, 0, 1], [1, 1, 0, 0]):
+            add("case_along_axis", "nan_tx4_" + "".join(map(str, mask)), n=4, desc=False, layout="tx", nanmask=mask)
         add("case_along_axis", "axis_axb_n4_2targets", n=4, desc=False, layout="axb", ntargets=2, opts=dict(weight=200))
         add("case_spectrum_frequency", "spec_freq_linear_nf4", nf=4, method="linear")
         add("case_grid2", "grid_3x3", n1=3, n2=3, opts=dict(weight=80))
